@@ -125,6 +125,20 @@ theorem gzip_roundtrip (G : Gz) (hG : LawfulGz G) (d rest : Bytes)
   simp only [hG.hdr_gz d, hG.gunz_gz d, Bool.not_true, Bool.false_eq_true, if_false]
   rw [gunzLimited_clean d (by omega)]
 
+/-! ## The other direction: decoding is injective -/
+
+/-- **Whatever the decoders accept re-encodes to exactly the bytes they consumed**: an accepted
+message always has `Bytes` = body length ≤ 2^20 and `Encode` gives back the consumed bytes; the
+same for a container announcing as many messages as it holds (count ≥ 1, or an explicit 0) and for
+a result.  Together with the round-trip theorems: `Encode` and `Decode` are mutually inverse on
+the valid values, so two different byte strings never decode to the same value. -/
+theorem decode_then_encode (b r : Bytes) :
+    (∀ m, decodeMessage b = .ok (m, r) →
+      ∃ x, encodeMessage m = .ok x ∧ x ++ r = b ∧ m.bytes = m.body.length ∧ m.body.length ≤ 1048576) ∧
+    (∀ ms, decodeContainer b = .ok (ms, r) → ms ≠ [] → ∃ x, encodeContainer ms = .ok x ∧ x ++ r = b) ∧
+    (∀ x, decodeResult b = .ok (x, r) → encodeResult x = b ∧ r = []) :=
+  ⟨fun _ h => decodeMessage_inv h, fun _ h hne => decodeContainer_inv h (Or.inl hne), fun _ h => decodeResult_inv h⟩
+
 /-! ## Bounded expansion -/
 
 /-- **gzip_bounded.**  Whatever the bytes and whatever the decompressor does, a successful decode
